@@ -12,7 +12,7 @@ for mp in sorted(glob.glob(os.path.join(ROOT, "seeded", "*", "meta.json"))):
     if caught and missed:
         verdict += " (not by " + ", ".join(missed) + ")"
     hist = m.get("history", "")
-    first = "missed at first" in hist
+    first = "missed at first" in hist or "inconclusive at first" in hist
     rows.append("| %s | %s | %s | %s | %s |" % (m["name"], m.get("breaks", "").replace("|", "/"), m.get("needs_to_manifest", "").replace("|", "/"), verdict, "strengthened after a first miss" if first else ""))
 table = "| Change | What it breaks | What it needs to manifest | Quick tier | Note |\n|---|---|---|---|---|\n" + "\n".join(rows)
 p = os.path.join(ROOT, "DESIGN.md")
